@@ -319,7 +319,12 @@ class Ctx:
             },
             "assumptions": self.assumptions, "wall_s": round(wall, 2), "violations": len(self.violations),
         }
-        (VERIF / "evidence" / f"{self.prop}.json").write_text(json.dumps(ev, indent=1, default=str))
+        if os.environ.get("VERIF_REPO"):
+            # a run against a scratch copy (mutation / seeded-change self-tests) never overwrites the evidence of /repo
+            (VERIF / "replays" / "scratch-evidence").mkdir(exist_ok=True)
+            (VERIF / "replays" / "scratch-evidence" / f"{self.prop}.json").write_text(json.dumps(ev, indent=1, default=str))
+        else:
+            (VERIF / "evidence" / f"{self.prop}.json").write_text(json.dumps(ev, indent=1, default=str))
         for l in lines:
             print(l)
         print(f"[{self.prop}] tier={self.tier} seed={self.seed} obligations={len(obs)} discharged={len(obs)-len(broken)} "
